@@ -6,7 +6,7 @@ EXTENDS JetProg
 CONSTANTS MaxLen
 
 CondVals == {"true", "false", "0", "1", "-1", "", "str", Nil,
-             "ref:zerofloat", "ref:float", "ref:nilptr", "ref:ptr", "ref:nilmap", "ref:emptymap", "ref:map",
+             "ref:zerofloat", "ref:float", "ref:nilptr", "ref:ptr", "ref:ptrzero", "ref:ptrptrzero", "ref:ptrfalse", "ref:ptrempty", "ref:nilmap", "ref:emptymap", "ref:map",
              "ref:nilslice", "ref:emptyslice", "ref:slice", "ref:zerostruct", "ref:struct", "ref:zeroarray", "ref:array",
              "ref:func", "ref:niliface", "ref:ifacezero", "ref:chan", "ref:zerotime"}
 ChainVals == {"1", "0"}
